@@ -134,7 +134,17 @@ OPPAIR_GEN += ["SELECT id FROM t1 WHERE %s" % o.replace('{X}', '(%s)' % i) for o
 OPPAIR_GEN += ["SELECT id, %s AS x FROM t1" % e for e in ('a - (b - (id - 1))', '(a - b) - (id - 1)', 'a - (b + (id - 1))', 'a * (b + id) * 2', '-(a - (-b))', 'NOT (NOT (a = b) OR a > 1)',
                '(a = b) = (id = 1)', '(a < b) < (b < id)', 'a - (b * (id + 1))', '(a + b) % (id + 1)', 'a % (b % 3)', '(a % 3) % 2', '-(a % 3)', '(-a) % 3', 'NOT (a BETWEEN 1 AND 2)',
                'NOT ((a IS NULL) = (b IS NULL))', '(NOT a) IS NULL', 'NOT (a IS NULL)', '(a OR b) AND (id OR a)', 'a OR (b AND (id OR a))')]
-SELECTS = SELECTS + ORDER_GEN + SETOP_TAIL + GROUP_GEN + WINDOW_GEN + SUBQ_GEN + OPPAIR_GEN
+# nested set operations: every operator pair in both nestings (parentheses written), chains, nests inside a CTE / derived table / IN
+_SOPS = ('UNION', 'UNION ALL', 'INTERSECT', 'EXCEPT')
+_MA, _MB, _MC = "SELECT id FROM t1", "SELECT id FROM t2", "SELECT id FROM t3"
+SETOP_NEST = ["%s %s (%s %s %s)" % (_MA, o1, _MB, o2, _MC) for o1 in _SOPS for o2 in _SOPS]
+SETOP_NEST += ["(%s %s %s) %s %s" % (_MA, o1, _MB, o2, _MC) for o1 in _SOPS for o2 in _SOPS]
+SETOP_NEST += ["%s %s %s %s %s" % (_MA, o, _MB, o, _MC) for o in _SOPS]
+SETOP_NEST += ["%s %s (%s %s (%s %s SELECT a FROM t1))" % (_MA, o, _MB, o, _MC, o) for o in _SOPS]
+SETOP_NEST += ["WITH w AS (%s %s (%s %s %s)) SELECT w.id FROM w" % (_MA, o, _MB, o, _MC) for o in ('EXCEPT', 'UNION ALL')]
+SETOP_NEST += ["SELECT s.id FROM (%s %s (%s %s %s)) AS s WHERE s.id > 0" % (_MA, o, _MB, o, _MC) for o in ('EXCEPT', 'INTERSECT')]
+SETOP_NEST += ["%s EXCEPT ALL (%s EXCEPT ALL %s)" % (_MA, _MB, _MC), "(%s EXCEPT %s) EXCEPT (%s EXCEPT SELECT a FROM t1)" % (_MA, _MB, _MC)]
+SELECTS = SELECTS + ORDER_GEN + SETOP_TAIL + GROUP_GEN + WINDOW_GEN + SUBQ_GEN + OPPAIR_GEN + SETOP_NEST
 
 DML = [
     "DELETE FROM t1 WHERE a > 1",
@@ -385,7 +395,7 @@ def replay_member(sql, dialect, witness):
     def run(q, tree=None):
         con = fresh()
         if tree is not None and not isinstance(ast, (A.Delete, A.Update, A.Insert)):
-            q = explicit(tree)
+            q = member_parens_to_derived(explicit(tree))      # sqlite cannot run a parenthesised member: same meaning as a derived table
         cur = con.execute(q.replace('`', '"'))
         if isinstance(ast, (A.Delete, A.Update, A.Insert)):
             name = str(ast.table.parts[-1])
